@@ -40,7 +40,19 @@ def exec_SC(t):
             if (n + len(vs) + int(vs[0])) % 4 == 1:
                 # the same NumPy integers standing in a python list or tuple (D59: a list of np.uint64 kept uint64 as its value type)
                 v_in = [dt(v) for v in vals] if (n + f) % 2 else tuple(dt(v) for v in vals)
+        if sp != 'npint':
+            # (content-determined) the value arrives inside an exact fixed-point object, or as a decimal.Decimal: storing v is storing
+            # (v - b) / s whatever holds v (D80: the codes of such a source were copied)
+            from .. import carriers as C_
+            hh = (n * 3 + f + len(vs) + sum(int(v * 4) % 7 for v in vs)) % 6
+            cf = 'fxp' if len(vs) == 1 else 'arr.fxp'
+            if hh == 0 and C_.ok_for(cf, vs):
+                v_in = C_.build(cf, vs)[0]
+            elif hh == 1 and len(vs) == 1 and C_.ok_for('decimal', vs):
+                v_in = C_.build('decimal', vs)[0]
         kw = dict(rounding=r, overflow=o, scale=num(sc, 'int' if sp == 'npint' else sp), bias=num(bi, 'int' if sp == 'npint' else sp))
+        if (n + f + len(vs)) % 5 == 0 and isinstance(kw['scale'], float) and float(np.float32(kw['scale'])) == kw['scale']:
+            kw['scale'] = np.float32(kw['scale'])     # (the same scale as a NumPy float: limits and readings are those of the value, D80)
         if sp == 'npint' and isinstance(kw['bias'], float) and float(np.float32(kw['bias'])) == kw['bias'] and (n + f) % 2:
             kw['bias'] = np.float32(kw['bias'])       # the same bias as a NumPy float (it is a float all the same)
         lo, hi = lims(s, n)
